@@ -17,6 +17,97 @@ def weights_of(repo, modname, fn):
             return n.value
     raise FactError('skoolkit/%s.py: weights table not found' % modname)
 
+def add_instructions_rule(ctx, repo):
+    """C04.4 (*fold*): BinWriter._add_instructions on every combination of 0-2 prepended (`>`), an optional replacing (plain or `|`) and 0-2
+    appended (`+` / chained, plain or `|`) instructions of sizes 1-3, at an unmoved and at a relocated address, against the manual's
+    semantics (asm.rst, @bfix): prepends go before the instruction, whose new address is recorded in the address map; the first other
+    directive replaces it unless it carries `+`; the rest follow it; an instruction marked `|` removes exactly the original instructions
+    whose *skool* addresses it overlaps - counted from the current instruction's own skool address, wherever prepends have pushed it."""
+    import itertools
+    from sa.core.classfold import ClassFolder, Inst
+    ctx.rule('C04.4-add-instructions', 'BinWriter._add_instructions (folded) == manual semantics of >, |, + and chained @*sub/@*fix directives: addresses, removed skool addresses, address map (all combinations of 0-2 prepends, replacement, 0-2 appends; sizes 1-3; relocated or not)', floor=150)
+    cf = ClassFolder(repo, 'skool2bin')
+    SIZES = {'NOP': 1, 'XOR A': 1, 'LD A,1': 2, 'LD BC,0': 3}
+    class Asm:
+        _sa_fold_ok = True
+        _sa_model = True
+        def get_size(self, op, addr):
+            return SIZES[op]
+    where = 'skoolkit/skool2bin.py (BinWriter._add_instructions)'
+    ops = ['NOP', 'LD A,1', 'LD BC,0']
+    n = 0
+    reported = 0
+    for shift in (0, 7):
+        for pre in ([], ['NOP'], ['LD A,1', 'NOP'], ['LD BC,0']):
+            for rep in (None, ('', 'LD A,1'), ('|', 'LD BC,0'), ('|', 'NOP'), ('', 'LD BC,0')):
+                for app in ([], [('+', 'NOP')], [('', 'LD A,1')], [('|', 'LD A,1')], [('+', 'NOP'), ('|', 'LD BC,0')], [('', 'NOP'), ('', 'LD A,1')]):
+                    if rep is None and app and app[0][0] != '+' and '+' not in app[0][0]:
+                        # with no replacement the first non-prepend directive *is* the replacement; covered by the rep cases
+                        continue
+                    original = 'XOR A'
+                    skool, address = 40000, 40000 + shift
+                    directives = ['>' + p for p in pre]
+                    if rep is not None:
+                        directives.append(rep[0] + rep[1])
+                    for k, (m, o) in enumerate(app):
+                        mk = m
+                        if rep is None and k == 0 and '+' not in mk:
+                            mk = '+' + mk
+                        directives.append(mk + o)
+                    # reference
+                    real = address
+                    want_ins = []
+                    for p in pre:
+                        want_ins.append((None, real, p, '>'))
+                        real += SIZES[p]
+                    base = real
+                    want_removed = set()
+                    seq = []
+                    rest = list(app)
+                    if rep is not None:
+                        seq.append((rep[1], '|' in rep[0], True))
+                    else:
+                        seq.append((original, False, True))
+                    for m, o in rest:
+                        seq.append((o, '|' in m, False))
+                    for o, ow, main in seq:
+                        if ow:
+                            want_removed |= set(range(skool + (real - base), skool + (real - base) + SIZES[o]))
+                        want_ins.append((skool if main else None, real, o, '|' if ow else (' ' if main else '+')))
+                        real += SIZES[o]
+                    bw = Inst('skool2bin', 'BinWriter', cf)
+                    bw.assembler = Asm(); bw.instructions = []; bw.start = -1; bw.end = 65537
+                    bw.keep = None; bw.nowarn = None; bw.data = None; bw.bvalues = None; bw.address_map = {}
+                    removed = set()
+                    name = 'directives %s on `%05d XOR A` assembled at %d' % (directives, skool, address)
+                    try:
+                        ret = cf.call(bw, '_add_instructions', address, skool, list(directives), original, removed)
+                    except NotLiteral as e:
+                        ctx.limit('_add_instructions', 'not foldable: %s' % e)
+                        return
+                    except (KeyError, IndexError, ValueError, TypeError, AttributeError) as e:
+                        ctx.violation('_add_instructions', where, '%s: fails with %s: %s' % (name, type(e).__name__, e))
+                        continue
+                    got_ins = [(i.address, i.real_address, i.operation, i.marker) for i in bw.instructions]
+                    problems = []
+                    if ret != real:
+                        problems.append('next address %s, expected %d' % (ret, real))
+                    if removed != want_removed:
+                        problems.append('removes skool addresses %s, expected %s' % (sorted(removed), sorted(want_removed)))
+                    if got_ins != want_ins:
+                        problems.append('lays down %s, expected %s' % (got_ins, want_ins))
+                    if bw.address_map.get(skool) != str(base):
+                        problems.append('address map sends %d to %s, expected %d' % (skool, bw.address_map.get(skool), base))
+                    n += 1
+                    if problems:
+                        reported += 1
+                        if reported <= 4:
+                            ctx.violation('_add_instructions', where, '%s: %s' % (name, '; '.join(problems[:2])))
+                    else:
+                        ctx.ok({'case': name} if n % 40 == 1 else None)
+    if reported > 4:
+        ctx.note('C04.4: %d further directive combinations fail' % (reported - 4))
+
 def run(ctx):
     repo = pyfacts.Repo(ctx.repo_root)
     sp = repo.mod('skoolparser'); sb = repo.mod('skool2bin'); sa_ = repo.mod('skool2asm')
@@ -84,6 +175,7 @@ def run(ctx):
     # shared literal-pattern rule (hex digits in either case survive base conversion)
     from sa.rules.C02 import number_syntax
     number_syntax(ctx, repo)
+    add_instructions_rule(ctx, repo)
     from sa.rules import memo
     memo.run_for(ctx, repo, 'C04')
     return report.finish(ctx, EXPLANATION)
